@@ -164,7 +164,9 @@ class C09(fw.Prop):
                 continue
             valid.append((kind, data))
             if kind != "snrm":
-                yield mk({"op": "parse", "parser": kind, "data": data.hex(), "kind": "model", "tag": "roundtrip"})
+                # (the bytes are the specification's serialisation - checked by the "ser" case - so what the model of the
+                #  parser returns for them is, by C09_parse_serialize, the frame itself: a disagreement is a property failure)
+                yield mk({"op": "parse", "parser": kind, "data": data.hex(), "kind": "prop", "tag": "roundtrip"})
         # largest legal and too long, out-of-range numbers
         c, s = ("c", 16, None), ("s", 1, 17)
         for kind in ("ua", "i", "ui"):
@@ -203,6 +205,13 @@ class C09(fw.Prop):
             for extra in (b"\x00", b"\x7e", b"\x7e\xa0", bytes(rng.getrandbits(8) for _ in range(5))):
                 yield mk({"op": "fault", "parser": kind, "orig": data.hex(), "bad": (data + extra).hex(), "tag": "append"})
                 yield mk({"op": "fault", "parser": kind, "orig": data.hex(), "bad": (extra + data).hex(), "tag": "prepend"})
+            # extended between the flags with the check sequence recomputed over the longer content (the length field
+            # still says the old length): valid content + old FCS + extra bytes + new FCS
+            from harness.props.c12 import x25_ref
+            for extra in (b"", b"\x00", bytes(rng.getrandbits(8) for _ in range(8))):
+                mid = data[1:-1] + extra
+                yield mk({"op": "fault", "parser": kind, "orig": data.hex(), "bad": (b"\x7e" + mid + x25_ref(mid) + b"\x7e").hex(),
+                          "tag": "extend-refcs"})
         pool2 = rng.sample(tiny, min(len(tiny), 8)) if deep else rng.sample(tiny, min(len(tiny), 3))
         for kind, data in pool2:
             nbits = len(data) * 8
